@@ -270,7 +270,15 @@ def executor_worker(args: Dict[str, Any]) -> Dict[str, Any]:
     txt = (Path(args["out"]) / "ATestRun_eljob.py").read_text()
     a = txt.index("job.sampleHandler(sh)") + len("job.sampleHandler(sh)")
     b = txt.index("# Create the algorithm's configuration.")
-    region = [l for l in txt[a:b].split("\n") if l.strip() != ""]
+    raw = txt[a:b]
+    toks = raw[2:-2].split("\n") if raw.startswith("\n\n") and raw.endswith("\n\n") else None
+    if toks is not None and len(toks) % 2 == 1 and all(t == "" for t in toks[0::2]):
+        region = toks[1::2]     # the template writes "\n<line>\n" per script line: blank script lines are recoverable
+    elif toks is not None and raw.strip("\n") == "":
+        region = []
+    else:
+        region = [l for l in raw.split("\n") if l.strip() != ""]
+        exp = (exp[0], ({n: [l for l in sc if l.strip() != ""] for n, sc in exp[1][0].items()}, exp[1][1]))
     return {"why": check_output(region, *exp[1]), "region_lines": len(region)}
 
 
@@ -333,6 +341,21 @@ def run(ctx: Ctx) -> int:
         ereqs.append({"fn": "vf.props.c15:executor_worker", "args": {"blocks": first, "omit_empty_deps": True, "out": str(ctx.scratch / f"exed{i}")}})
         ereqs.append({"fn": "vf.props.c15:executor_worker", "args": {"blocks": [(solo, script_for(solo, 0, 2), []), (z, script_for(z, 0, 3), [])], "pre_blocks": [first], "omit_empty_deps": True,
                                                                      "out": str(ctx.scratch / f"exee{i}")}})
+    # blank lines are lines too (the empty line inside a triple-quoted script)
+    for i in range(ctx.pick(4, 20)):
+        x, y, z = R.sample([f"b{k}" for k in range(9)], 3)
+        bl = [(x, [f"{x}_0", "", f"    {x}_2", ""], []), (y, ["", f"{y}_1"], [x]), (z, [f"{z}_0", "", "", f"{z}_3"], R.choice([[], [y]]))]
+        if i % 3 == 2:
+            bl.append((x, [f"{x}_0", f"    {x}_2"], []))     # differs from the first copy by its blank lines only: a different script
+        R.shuffle(bl)
+        ereqs.append({"fn": "vf.props.c15:executor_worker", "args": {"blocks": bl, "out": str(ctx.scratch / f"exeb{i}")}})
+    # a name sent twice with DIFFERENT scripts and identical dependency sets
+    for i in range(ctx.pick(4, 20)):
+        x, y = R.sample([f"b{k}" for k in range(9)], 2)
+        deps = R.choice([[], [y]])
+        bl = [(y, script_for(y, 0, 2), []), (x, script_for(x, 0, 2), list(deps)), (x, script_for(x, 1, 2), list(deps))]
+        R.shuffle(bl)
+        ereqs.append({"fn": "vf.props.c15:executor_worker", "args": {"blocks": bl, "out": str(ctx.scratch / f"exec{i}")}})
     for r, q in zip(run_batch(ereqs, ctx.scratch), ereqs):
         if "why" not in r:
             ctx.inconclusive.append(f"executor worker failed: {r}"[:300])
